@@ -315,6 +315,14 @@ func (conn *Conn) recv() {
 		err = ErrShutdown
 	}
 	for seq, call := range conn.pending {
+		if call.stream != nil && call.upgrade.Stream == streaming {
+			// The opening call of an established stream: nobody waits for it any more.
+			// A message of the stream that was received before the end may still be on
+			// its way to the reader (readStream queue) and must not pick up this error;
+			// the stream itself is stopped below.
+			delete(conn.pending, seq)
+			continue
+		}
 		vhook("c.sweep", conn, call, 0, 0)
 		delete(conn.pending, seq)
 		call.Error = err
